@@ -78,7 +78,9 @@ fn chain_kind(chain: &[usize]) -> String {
     if chain.len() == 1 {
         kind(chain[0]).to_string()
     } else {
-        format!("sequence[{}]", chain.iter().map(|&i| kind(i)).collect::<Vec<_>>().join(","))
+        // one tag for all sequences: a defect of a constituent also shows up
+        // under the constituent's own tag in the single-normalizer sub-box
+        "sequence".to_string()
     }
 }
 
@@ -289,7 +291,7 @@ pub fn run(ctx: Ctx) -> ! {
     if m.get("cases") != expect {
         ctx.machinery(&format!("C30: enumerated {} cases, box has {}", m.get("cases"), expect));
     }
-    if m.get("cases_where_normalization_changed_the_byte_length") == 0 {
+    if m.get("cases_where_normalization_changed_the_byte_length") == 0 && ctx.violation_count() == 0 {
         ctx.machinery("C30: vacuous - no normalization changed the byte length");
     }
     if m.get("cases_with_non_boundary_entries_at_non_boundary_positions") > 0 {
